@@ -4,6 +4,7 @@
 //verif:assume programs: every sequence of 3 (thorough: 4) operations over {add split s1 with files v1, add split s1 again with files v2, add split s2, commit, cancel}; crash model for VerifC12Crash: fail-stop stores at every mutating store call of a split upload or of a commit, landed or not, then a retry; interleavings for VerifC12Race: two concurrent operations (commit/commit, commit/cancel, cancel/cancel) with a preemption point before every mutating call (Put, Delete) on the metadata stores - every check-then-write window is opened - and at most 2 context switches (thorough: 3)
 //verif:cover VerifC12Programs committed refused-after-commit refused-after-cancel rerun-of-done-split-refused commit-without-split-refused
 //verif:cover VerifC12Crash split-crashed-then-rerun commit-crashed-then-retried replay-of-running-split-after-termination commit-retried-on-the-same-object fault-while-operating-on-a-terminated-diamond
+//verif:cover VerifC12SplitFaults split-upload-failed
 //verif:cover VerifC12Race two-commits commit-and-cancel switched checksummed-store overlapping-runs-of-one-split
 package core
 
@@ -427,5 +428,45 @@ func VerifC12Race() {
 	}
 	if dd.State == model.DiamondCanceled {
 		vAssertR(len(ids) == 0, "canceled-diamond-has-no-bundle", "C12-F2", kind == 1 && switches > 0)
+	}
+}
+
+// VerifC12SplitFaults: a split upload hit by one transient fault at any store call (reads and listings included)
+// reports the failure or is complete; after a retry of a failed upload the commit yields one bundle holding exactly
+// the files of the run recorded as completing the split.
+func VerifC12SplitFaults() {
+	vBudget(600000000)
+	vUnwind(300000)
+	w := vNewDiamondWorld()
+	cr := &vCrasher{stores: []*vStore{w.meta, w.vmeta, w.blob}, allCalls: true, transient: true}
+	cr.crashAt = vInt("faultAt", 1, 40)
+	cr.install()
+	vNextSecond()
+	err1 := w.splitAdd("s1", vFilesV1, []string{"a", "c"})
+	cr.revive()
+	vAssume(cr.crashed)
+	_, done1 := w.vmeta.data[model.GetArchivePathToFinalSplit("r", vDiamond, "s1")]
+	if err1 == nil {
+		vAssert(done1, "split-upload-that-reports-success-is-recorded-complete")
+	} else {
+		vCover("split-upload-failed")
+	}
+	wantA := "s1-a-v1"
+	want := map[string]bool{"a": true, "c": true}
+	if !done1 {
+		vNextSecond()
+		vAssert(w.splitAdd("s1", vFilesV2, []string{"a"}) == nil, "failed-split-upload-can-be-rerun")
+		wantA = "s1-a-v2"
+		want = map[string]bool{"a": true}
+	}
+	vNextSecond()
+	id, err := w.commit(model.EnableConflicts)
+	vAssert(err == nil, "commit-succeeds")
+	ids := w.bundleIDs()
+	vAssert(len(ids) == 1 && ids[0] == id, "a-diamond-produces-exactly-one-bundle")
+	got, e := w.entries(id)
+	vAssert(e == nil && vSameKeys(got, want), "bundle-holds-exactly-the-files-of-the-recorded-run")
+	if e == nil {
+		vAssert(got["a"] == w.keyOf(wantA), "split-content-is-that-of-the-recorded-run")
 	}
 }
